@@ -360,115 +360,143 @@ def p10_row_identifier_correspondence(prog):
     def meth(name):
         c = [f for f in prog.fns.values() if f.path == 'archetype::Archetype::<R>::' + name]
         return c[0] if len(c) == 1 else None
+    S = pathsem.strip_refs
+    ei = adt_field_index(prog, 'archetype::Archetype', 'entity_identifiers')
+    li = adt_field_index(prog, 'archetype::Archetype', 'length')
+    idf = adt_field_index(prog, 'archetype::Archetype', 'identifier')
+    LOC = 'entity::allocator::location::Location'
+
+    def names_this_archetype(t, me):
+        """t is (a call on) the archetype's own identifier: self.identifier.as_ref() / self.identifier()"""
+        return pathsem.mentions(t, lambda u: (pathsem.is_field_of(u, 'archetype::Archetype', idf) and pathsem.mentions(u, lambda w: w == me)) or
+                                (u[0] == 'call' and u[1].endswith('::identifier') and u[2] and S(u[2][0]) in (me, ('d', me))))
+
+    def is_idcol(t, me):
+        return pathsem.mentions(t, lambda u: pathsem.is_field_of(u, 'archetype::Archetype', ei) and pathsem.mentions(u, lambda w: w == me))
     # ---- push
     f = meth('push')
     if f is None:
         r.viol('P10', 'push/missing', '-', 'Archetype::push not found')
     else:
-        body = f.body
         r.inst('Archetype::push')
-        lwrites = [(b, i) for b, i, s in body.stmts() if s['k'] == 'assign' and s['place']['p'] and receiver_name(prog, body, {'copy': s['place']}) == 'self.length']
-        se = SymEval(prog, body, _length_versioned_atomizer(prog, body, lwrites))
-        al = [(b, t) for b, t in body.calls(lambda c: c['name'] == 'allocate' and 'Allocator' in c['path'])]
-        if len(al) != 1:
-            r.viol('P10', 'push/allocate-count', f.loc(), 'push must allocate exactly one identifier')
-        else:
-            ab, at = al[0]
-            ll = op_local(at['args'][1])
-            d = resolve_def(body, ll) if ll is not None else None
-            ok = False
-            if d and d[0] == 'assign' and d[3]['rv']['k'] == 'agg' and d[3]['rv'].get('path', '').endswith('Location'):
-                idx = se.operand(d[3]['rv']['ops'][1], (d[1], d[2]))
-                idl = op_local(d[3]['rv']['ops'][0])
-                dd = resolve_def(body, idl) if idl is not None else None
-                ok_idx = idx == Lin({'oldlen': 1})
-                ok_id = bool(dd and dd[0] == 'call' and dd[2]['f']['name'] in ('as_ref', 'identifier') and (receiver_name(prog, body, dd[2]['args'][0]) or '').startswith('self'))
-                if not ok_idx:
-                    r.viol('P10', 'push/location-index', f.loc(d[3]['ln']), 'the new entity\'s location index is %s, expected the row it is pushed to (the length before the push)' % idx)
-                if not ok_id:
-                    r.viol('P10', 'push/location-identifier', f.loc(d[3]['ln']), 'the new entity\'s location does not name this archetype')
-                ok = True
-            elif d and d[0] == 'call' and d[2]['f']['name'] == 'new' and 'Location' in d[2]['f']['path']:
-                idx = se.operand(d[2]['args'][1], (d[1], None))
-                if idx != Lin({'oldlen': 1}):
-                    r.viol('P10', 'push/location-index', f.loc(d[2]['ln']), 'the new entity\'s location index is %s, expected the length before the push' % idx)
-                ok = True
-            if not ok:
-                r.viol('P10', 'push/location-shape', f.loc(at['ln']), 'cannot see the location handed to the allocator')
-            pushes = [(b, t) for b, t in body.calls() if is_ident_vec_call(body, t, ('push',))]
-            if len(pushes) != 1 or access_of_local(body, op_local(pushes[0][1]['args'][1])).root != at['dest']['l']:
-                r.viol('P10', 'push/identifier-column', f.loc(), 'the identifier appended to the identifier column is not the one just allocated for this row')
-            ret_ok = any(s['k'] == 'assign' and s['place']['l'] == 0 and s['rv']['k'] == 'use' and op_local(s['rv']['op']) is not None and access_of_local(body, op_local(s['rv']['op'])).root == at['dest']['l'] for b, i, s in body.stmts())
-            if not ret_ok:
-                r.viol('P10', 'push/returned-identifier', f.loc(), 'push does not return the identifier it stored')
+        E = pathsem.analyse(prog, f)
+        me = ('p', 1, f.body.local_name(1) or 'self')
+        oldlen = ('f', ('d', me), li, 'archetype::Archetype')
+        rep = set()
+
+        def once(k, ln, msg, f=f, rep=rep):
+            if k not in rep:
+                rep.add(k)
+                r.viol('P10', k, f.loc(ln), msg)
+        rets = [p for p in E.paths if p.ended == 'return']
+        if E.truncated or not rets:
+            once('push/allocate-count', None, 'Archetype::push not analysable')
+        for p in rets:
+            al = p.calls(lambda e: e['name'] == 'allocate' and 'Allocator' in e['path'])
+            if len(al) != 1:
+                once('push/allocate-count', None, 'push must allocate exactly one identifier')
+                continue
+            at = al[0]
+            lv = S(at['vals'][1])
+            parts = None
+            if isinstance(lv, tuple) and lv[0] == 'agg' and lv[1] == LOC:
+                parts = (lv[4][adt_field_index(prog, LOC, 'identifier')], lv[4][adt_field_index(prog, LOC, 'index')])
+            elif isinstance(lv, tuple) and lv[0] == 'call' and lv[1].endswith('Location::<R>::new') and len(lv[2]) == 2:
+                parts = (lv[2][0], lv[2][1])
+            if parts is None:
+                once('push/location-shape', at['ln'], 'cannot see the location handed to the allocator')
+            else:
+                d = pathsem.lin(parts[1]) - pathsem.lin(oldlen)
+                if not (d.is_const() and d.const == 0) or (at['epoch'] > min([e['epoch'] for e in p.events if e['k'] == 'store' and e['loc'] == oldlen] or [10 ** 9]) and False):
+                    once('push/location-index', at['ln'], 'the new entity\'s location index is %s, expected the row it is pushed to (the length before the push)' % pathsem.tstr(parts[1]))
+                if not names_this_archetype(parts[0], me):
+                    once('push/location-identifier', at['ln'], 'the new entity\'s location does not name this archetype')
+            pushes = [e for e in p.calls(lambda e: e['name'] == 'push' and e['path'].startswith('alloc::vec')) if is_idcol(e['args'][0], me)]
+            if len(pushes) != 1 or S(pushes[0]['vals'][1]) != at['ret']:
+                once('push/identifier-column', None, 'the identifier appended to the identifier column is not the one just allocated for this row')
+            if S(p.ret) != at['ret']:
+                once('push/returned-identifier', None, 'push does not return the identifier it stored')
     # ---- extend
     f = meth('extend')
     if f is None:
         r.viol('P10', 'extend/missing', '-', 'Archetype::extend not found')
     else:
-        body = f.body
         r.inst('Archetype::extend')
-        lwrites = [(b, i) for b, i, s in body.stmts() if s['k'] == 'assign' and s['place']['p'] and receiver_name(prog, body, {'copy': s['place']}) == 'self.length']
-        se = SymEval(prog, body, _length_versioned_atomizer(prog, body, lwrites))
-        ab_ = [(b, t) for b, t in body.calls(lambda c: c['name'] == 'allocate_batch')]
-        ln_ = [(b, t) for b, t in body.calls(lambda c: c['name'] == 'new' and 'Locations' in c['path'])]
-        if len(ab_) != 1 or len(ln_) != 1:
-            r.viol('P10', 'extend/shape', f.loc(), 'extend must build one Locations range and allocate one batch of identifiers')
-        else:
-            (bb, bt), (lb, lt) = ab_[0], ln_[0]
-            rl = op_local(lt['args'][0])
-            d = resolve_def(body, rl) if rl is not None else None
-            if d and d[0] == 'assign' and d[3]['rv']['k'] == 'agg' and d[3]['rv'].get('path', '').endswith('Range'):
-                lo = se.operand(d[3]['rv']['ops'][0], (d[1], d[2]))
-                hi = se.operand(d[3]['rv']['ops'][1], (d[1], d[2]))
-                if lo != Lin({'oldlen': 1}) or hi != Lin({'oldlen': 1, 'component_len': 1}):
-                    r.viol('P10', 'extend/location-range', f.loc(d[3]['ln']), 'new rows are given locations %s..%s, expected old_length..old_length + batch length' % (lo, hi))
+        E = pathsem.analyse(prog, f)
+        me = ('p', 1, f.body.local_name(1) or 'self')
+        oldlen = ('f', ('d', me), li, 'archetype::Archetype')
+        rep = set()
+
+        def once(k, ln, msg, f=f, rep=rep):
+            if k not in rep:
+                rep.add(k)
+                r.viol('P10', k, f.loc(ln), msg)
+        rets = [p for p in E.paths if p.ended == 'return']
+        if E.truncated or not rets:
+            once('extend/shape', None, 'Archetype::extend not analysable')
+        ORDER = ('deref', 'iter', 'into_iter', 'copied', 'cloned', 'as_slice', 'as_ref', 'borrow', 'by_ref', 'drain')
+        for p in rets:
+            ab_ = p.calls(lambda e: e['name'] == 'allocate_batch')
+            ln_ = p.calls(lambda e: e['name'] == 'new' and 'Locations' in e['path'])
+            if len(ab_) != 1 or len(ln_) != 1:
+                once('extend/shape', None, 'extend must build one Locations range and allocate one batch of identifiers')
+                continue
+            bt, lt = ab_[0], ln_[0]
+            rng = S(lt['vals'][0])
+            if isinstance(rng, tuple) and rng[0] == 'agg' and rng[1] == 'core::ops::Range' and len(rng[4]) == 2:
+                lo = pathsem.lin(rng[4][0]) - pathsem.lin(oldlen)
+                hi = pathsem.lin(rng[4][1]) - pathsem.lin(oldlen)
+                hit = list(hi.terms.items())
+                ok_hi = hi.const == 0 and len(hit) == 1 and hit[0][1] == 1 and isinstance(hit[0][0], tuple) and hit[0][0][0] == 'call' and hit[0][0][1].rsplit('::', 1)[-1] in ('component_len', 'len')
+                if not (lo.is_const() and lo.const == 0) or not ok_hi:
+                    once('extend/location-range', lt['ln'], 'new rows are given locations %s..%s, expected old_length..old_length + batch length' % (pathsem.tstr(rng[4][0]), pathsem.tstr(rng[4][1])))
             else:
-                r.viol('P10', 'extend/location-range-shape', f.loc(lt['ln']), 'cannot see the range of row indices handed to Locations::new')
-            idl = op_local(lt['args'][1])
-            dd = resolve_def(body, idl) if idl is not None else None
-            if not (dd and dd[0] == 'call' and dd[2]['f']['name'] in ('as_ref', 'identifier') and (receiver_name(prog, body, dd[2]['args'][0]) or '').startswith('self')):
-                r.viol('P10', 'extend/location-identifier', f.loc(lt['ln']), 'new rows\' locations do not name this archetype')
-            if access_of_local(body, op_local(bt['args'][1])).root != lt['dest']['l']:
-                r.viol('P10', 'extend/locations-not-used', f.loc(bt['ln']), 'allocate_batch is not given the locations built for the new rows')
-            exts = [(b, t) for b, t in body.calls(lambda c: c['name'] in ('extend', 'extend_from_slice', 'append') and t_is_ident_vec(c))]
+                once('extend/location-range-shape', lt['ln'], 'cannot see the range of row indices handed to Locations::new')
+            if not names_this_archetype(lt['vals'][1], me):
+                once('extend/location-identifier', lt['ln'], 'new rows\' locations do not name this archetype')
+            if S(bt['vals'][1]) != lt['ret']:
+                once('extend/locations-not-used', bt['ln'], 'allocate_batch is not given the locations built for the new rows')
+            exts = [e for e in p.calls(lambda e: e['name'] in ('extend', 'extend_from_slice', 'append')) if is_idcol(e['args'][0], me)]
             src_ok = False
-            ORDER_PRESERVING = ('deref', 'iter', 'into_iter', 'copied', 'cloned', 'as_slice', 'as_ref', 'borrow', 'by_ref')
-            for b, t in exts:
-                l = op_local(t['args'][1])
-                # walk back through order-preserving adaptors only
-                hops = 0
-                while l is not None and hops < 12:
-                    hops += 1
-                    a = access_of_local(body, l)
-                    if a.root == bt['dest']['l']:
-                        src_ok = True
-                        break
-                    d0 = single_def(body, a.root)
-                    if d0 and d0[0] == 'call' and d0[2]['f'].get('name') in ORDER_PRESERVING and d0[2]['args']:
-                        l = op_local(d0[2]['args'][0])
-                        continue
-                    break
+            for e in exts:
+                root, kinds = pathsem.iter_chain(e['vals'][-1])
+                if S(root) == bt['ret'] and all(k_ in ORDER for k_ in kinds):
+                    src_ok = True
             if not src_ok:
-                r.viol('P10', 'extend/identifier-column', f.loc(), 'the identifier column is not extended with the identifiers allocated for this batch (in their order)')
-            ret_ok = any(s['k'] == 'assign' and s['place']['l'] == 0 and s['rv']['k'] == 'use' and op_local(s['rv']['op']) is not None and access_of_local(body, op_local(s['rv']['op'])).root == bt['dest']['l'] for b, i, s in body.stmts())
-            if not ret_ok:
-                r.viol('P10', 'extend/returned-identifiers', f.loc(), 'extend does not return the identifiers it stored')
+                once('extend/identifier-column', None, 'the identifier column is not extended with the identifiers allocated for this batch (in their order)')
+            if S(p.ret) != bt['ret']:
+                once('extend/returned-identifiers', None, 'extend does not return the identifiers it stored')
     # ---- allocate_batch pairing
     fs = [g for g in prog.fns.values() if g.path == 'entity::allocator::Allocator::<R>::allocate_batch']
     if len(fs) != 1:
         r.viol('P10', 'allocate_batch/missing', '-', 'allocate_batch not found')
     else:
         f = fs[0]
-        body = f.body
         r.inst('Allocator::allocate_batch')
-        nx = [(b, t) for b, t in body.calls(lambda c: c['path'] == 'core::iter::Iterator::next' and 'Locations' in json_s(c['args']))]
-        ps = [(b, t) for b, t in body.calls() if is_ident_vec_call(body, t, ('push',))]
-        if len(nx) != 1 or len(ps) != 1:
-            r.viol('P10', 'allocate_batch/loop-shape', f.loc(), 'the reuse loop must take exactly one location and push exactly one identifier per reused slot (next=%d push=%d)' % (len(nx), len(ps)))
-        else:
-            if not (body.dominates(nx[0][0], ps[0][0]) and nx[0][0] in body.reachable_after(ps[0][0])):
-                r.viol('P10', 'allocate_batch/pairing', f.loc(), 'location and identifier of a reused slot are not produced in the same loop iteration')
+        E0 = pathsem.analyse(prog, f)
+        bad = None
+        for p in E0.paths:
+            if p.ended not in ('return', 'cutoff'):
+                continue
+            acts = p.calls(lambda e: e['name'] in ('activate_unchecked', 'activate'))
+            used_locs = []
+            pushed = p.calls(lambda e: e['name'] == 'push' and e['path'].startswith('alloc::vec') and any(is_adt(a_, ID_T) for a_ in e['f'].get('args', [])))
+            for n_, e in enumerate(acts):
+                loc = S(e['vals'][1]) if len(e['vals']) > 1 else None
+                # the location is one fresh element of the `locations` iterator
+                if not (isinstance(loc, tuple) and pathsem.mentions(loc, lambda t: t[0] == 'call' and t[1].endswith('::next')) and loc not in used_locs):
+                    bad = bad or 'a reused slot is activated with something other than the next location of the batch'
+                used_locs.append(loc)
+                # ... and exactly one identifier is pushed for it, naming that slot's index, in the same order
+                later = [q for q in pushed if q['i'] > e['i'] and (n_ + 1 >= len(acts) or q['i'] < acts[n_ + 1]['i'])]
+                if p.ended == 'return' and len(later) != 1:
+                    bad = bad or 'the reuse loop must push exactly one identifier per reused slot (found %d)' % len(later)
+                for q in later:
+                    slot_idx = [t[2][1] for t in pathsem.subterms(e['args'][0]) if t[0] == 'call' and t[1].rsplit('::', 1)[-1] in ('get_unchecked_mut', 'index_mut', 'get_mut') and len(t[2]) == 2]
+                    if not slot_idx or not pathsem.mentions(q['vals'][1], lambda t: t == S(slot_idx[0])):
+                        bad = bad or 'the identifier pushed for a reused slot does not carry that slot\'s index'
+        if bad or E0.truncated:
+            r.viol('P10', 'allocate_batch/loop-shape', f.loc(), 'the reuse loop must pair the k-th location with the k-th identifier: %s' % (bad or 'not analysable'))
         # fresh part: Identifier::new(slots_len + i, 0) for i in 0..remaining, in iteration order
         E = pathsem.analyse(prog, f)
         slots_i = adt_field_index(prog, 'entity::allocator::Allocator', 'slots')
